@@ -1,5 +1,8 @@
 """C07 -- the compiler is total: no panic, no hang, failures are rendered errors."""
 import collections
+import sys
+sys.setrecursionlimit(100000)
+import os
 import re
 
 import noise_gen
@@ -251,6 +254,9 @@ def tie(ctx):
             idx = debug_sample(cases)
             res2 = run(ctx, [cases[i] for i in idx], debug=True)
             bad += [(i, "debug build: " + classify(x)) for i, x in zip(idx, res2) if classify(x)]
+    # the open finding about native stack exhaustion excuses ONLY crashes on inputs nested thousands of levels deep
+    if any(kf.get("status") == "open" and kf.get("id") == "C07-native-stack-on-deep-nesting" for kf in vlib.known_findings("C07")):
+        bad = [(i, why) for i, why in bad if not (why.endswith("CRASH rc=-6") or "CRASH" in why) or not too_deep(cases[i][1])]
     dist = collections.Counter(c[0] for c in cases)
     outcome = collections.Counter(x.split(" ")[0] for x in res)
     kinds = collections.Counter()
@@ -316,8 +322,51 @@ def search(ctx):
             "failing_inputs_found": len(bad)}
 
 
-def replay_known(ctx, kf):
+def deep_witness(w):
+    n = int(w.get("n", 3000))
+    if w.get("shape") == "sum":
+        return "start :: fn do\n  x := " + " + ".join(["1"] * n) + "\nend\n"
+    return "start :: fn do\n  x := " + "(" * n + "1" + ")" * n + "\nend\n"
+
+
+def too_deep(files):
+    """nesting far beyond anything the generators produce on purpose: thousands of bracket levels or operator-chain
+    links (the open finding about native stack exhaustion only excuses crashes on such inputs)"""
+    for src in files.values():
+        depth = best = 0
+        for ch in src:
+            if ch in "([{":
+                depth += 1
+                best = max(best, depth)
+            elif ch in ")]}":
+                depth = max(0, depth - 1)
+        if best >= 1000:
+            return True
+        if any(len(line) > 30000 for line in src.split("\n")):
+            return True
     return False
+
+
+def replay_known(ctx, kf):
+    """the deep-nesting finding is about the `sylt` command (main thread, default stack); the harness compiles on a
+    worker thread with a larger stack, so the witness is replayed with the built binary"""
+    import subprocess
+    import tempfile
+    w = kf.get("witness", {})
+    if "shape" not in w:
+        return False
+    ok, out = vlib.build_sylt_bin()
+    if not ok:
+        return True
+    exe = os.path.join(vlib.BUILD, "target", "release", "sylt")
+    with tempfile.TemporaryDirectory(dir=os.path.join(vlib.BUILD, "tmp")) as td:
+        src = os.path.join(td, "deep.sy")
+        open(src, "w").write(deep_witness(w))
+        try:
+            p = subprocess.run([exe, "--no-std", "-o", os.path.join(td, "deep.lua"), src], capture_output=True, timeout=120)
+        except subprocess.TimeoutExpired:
+            return True
+    return p.returncode < 0 or p.returncode == 134
 
 
 def replay(ctx, rep):
